@@ -65,6 +65,9 @@ func infra(c *core.Ctx, r *runner.Result) bool {
 
 // abnormal reports crash/hang of a child as a violation description ("" = none).
 func abnormal(r *runner.Result) string {
+	if r.Blocked {
+		return "never finishes: the process is asleep and consumes no CPU any more (deadlock)"
+	}
 	if r.CPUHang() {
 		return "exceeded the CPU-time limit (hang)"
 	}
